@@ -133,7 +133,9 @@ def judge(case, st=None):
         if case["purge"] == "all3":
             lines += ["PI", "PO", "PN"]
         else:
-            lines += ["P\t" + n for n in types]
+            # (relations souffle creates itself, e.g. the nullary `+disconnectedN` of a partitioned body, are reachable only through
+            # purgeInternalRelations)
+            lines += ["P\t" + n for n in types] + ["PN"]
         for n in case["outs"] + case["ins"]:
             lines.append("Z\t" + n)
             expect.append(("Z0", n))
